@@ -469,8 +469,8 @@ func main() {
 		return has(b, `Expr: toExpr\(pbq\.GetExpr\(\)\)`) && has(b, `GroupBy: pbq\.GetGroupBy\(\)`)
 	})
 	fact("validateExprShape", fn("query.go", "", "validateExpr"), func(b *ast.BlockStmt) bool {
-		return has(b, `case \*ExprNot: if v == nil \{ return fmt\.Errorf\("incomplete expression"\) \} return validateExpr\(v\.Expr\)`) &&
-			has(b, `default: return fmt\.Errorf\("incomplete expression"\)`) && strings.Count(flat(b), "if v == nil {") == 4
+		return has(b, `case \*ExprNot: if v == nil \{ return [^}]*\} return validateExpr\(v\.Expr\)`) &&
+			has(b, `default: return (fmt\.Errorf|errors\.New)\(`) && strings.Count(flat(b), "if v == nil {") == 4
 	})
 	fact("createShape", fn("cmd/updog/create.go", "", "createCmd"), func(b *ast.BlockStmt) bool {
 		return has(b, `header = normalizeHeader\(header\)`) && has(b, `for idx, v := range record \{ k := header\[idx\] values\[k\] = v \}`) &&
